@@ -94,7 +94,7 @@ def gt(a, b):
 
 
 def max_(a, b):
-    return ite(a >= b, a, b)
+    return ite(a <= b, b, a)
 
 
 def min_(a, b):
